@@ -1,9 +1,9 @@
 //! C13 -- the encrypted transport `Stream<S>`: the REAL
 //! /repo/node/components/network/src/noise/stream.rs (`poll_read`, `poll_write`, `poll_flush`,
 //! `poll_shutdown`, `poll_read_frame`, `poll_read_payload`, `poll_flush_frame`,
-//! `poll_flush_payload`, `server_handshake`/`handshake` up to its first `return`) together with the
-//! REAL /repo/node/components/network/src/noise/bytes.rs, model-checked over a nondeterministic
-//! back-pressuring transport.
+//! `poll_flush_payload`; `server_handshake`/`client_handshake`/`handshake` up to the first
+//! `return`) together with the REAL /repo/node/components/network/src/noise/bytes.rs,
+//! model-checked over a nondeterministic back-pressuring transport.
 //!
 //! ======================================================================================
 //! BOUNDS / MODELLING (part of every claim made with this crate)
@@ -12,32 +12,45 @@
 //!    `const MAX_TRANSPORT_MSG_LEN: usize = 65535;` -> `= 20;`. Hence MAX_PAYLOAD_LEN = 4 (real:
 //!    65519) and MAX_FRAME_LEN = 22 (real: 65537). Everything else in the file is the real text
 //!    (the leading `//!` lines become `//` lines so that the file can be `include!`d in a module).
+//!    `VERIF_STREAM_RS=<file>` makes build.rs read another file instead (used to validate the
+//!    harnesses against known-bad variants, see variants/).
 //!    Artefact of the scaling: the u16 length field can now announce a frame LONGER than the frame
 //!    buffer (impossible with 65535 = u16::MAX); only `reader_tampered_wire_never_panics` feeds such
-//!    frames and it only claims absence of panics + authenticity of the first delivery.
+//!    frames and it only claims absence of panics + authenticity of what is delivered.
 //! 2. `snow` is replaced by an IDEAL-CIPHER MODEL (shims/snow): per-direction nonce counters, a
-//!    message is accepted iff it carries the tag of the receiver's next nonce. The Noise handshake
-//!    is NOT modelled (the shim handshake state is finished from the start); `Stream<Mock>` values
-//!    are obtained by polling the real `Stream::server_handshake` once.
-//! 3. tokio is replaced by shims/zksync_concurrency_io: `AsyncRead`/`AsyncWrite` re-declared with
-//!    tokio's signatures, `ReadBuf` re-implemented safely. `zksync_consensus_crypto` is replaced by
-//!    a 32-byte `Keccak256` value type + `ByteFmt`. `crate::metrics::MeteredStream` is a dummy
-//!    type (only names the default type parameter). `pin-project` and `anyhow` are the real crates.
-//! 4. Transport `Mock`: decisions by `kani::any()`, budgeted: at most P = 2 `Pending` per mock
-//!    (shared by poll_write/poll_flush/poll_shutdown/poll_read), at most Q = 2 partial transfers
-//!    per mock (a partial `poll_write` accepts k bytes, 1 <= k < buf.len(); a short `poll_read`
-//!    delivers k bytes, 1 <= k < min(room, available)); after the budget every call transfers
-//!    everything it can. `poll_write` never returns Ok(0) for a non-empty buffer; a `poll_read`
-//!    into an empty buffer returns Ready(Ok) with nothing filled (as a socket does); EOF (Ready,
-//!    nothing filled) only when `closed` and every byte was delivered, otherwise Pending.
-//! 5. Callers re-poll an operation that returned Pending with the SAME arguments, at most P + 1
-//!    polls per operation (enough for it to complete under the mock's budget -- asserted).
-//! 6. Per-harness bounds (numbers of operations, buffer lengths) are stated at each harness.
+//!    message is accepted iff it carries the tag of the receiver's next nonce; payloads are XORed
+//!    with a mask byte. The Noise handshake is NOT modelled: the shim handshake state is finished
+//!    from the start.
+//! 3. INITIAL STATE. `Stream`'s fields are private. `handshake_returns_fresh_stream` polls the real
+//!    `server_handshake` / `client_handshake` once and checks that they return the state
+//!    `Stream::verif_fresh(inner)`; all other harnesses start from `verif_fresh`, a
+//!    verification-only constructor added NEXT TO the included file (same module, see below) that
+//!    repeats the struct literal of `handshake`'s `return Ok(Self { .. })`. (Using the value taken
+//!    out of the polled future directly makes every pointer in it a symbolic merge of the
+//!    coroutine's return paths for CBMC: measured 10x the formula size, harnesses did not finish.)
+//! 4. tokio is replaced by shims/zksync_concurrency_io: `AsyncRead`/`AsyncWrite` re-declared with
+//!    tokio's signatures (+ tokio's impls for `&mut T` and `Pin<P>`), `ReadBuf` re-implemented
+//!    safely. `zksync_consensus_crypto` is replaced by a 32-byte `Keccak256` value type +
+//!    `ByteFmt`. `crate::metrics::MeteredStream` is a dummy type (only names the default type
+//!    parameter). `pin-project` and `anyhow` are the real crates.
+//! 5. Transport `Mock`: decisions by `kani::any()`, budgeted per mock: at most P `Pending` answers
+//!    (shared by poll_write/poll_flush/poll_shutdown/poll_read) and at most Q partial transfers (a
+//!    partial `poll_write` accepts k bytes, 1 <= k < buf.len(), k symbolic; a short `poll_read`
+//!    delivers k bytes, 1 <= k < min(room, available), k symbolic); once the budget is used every
+//!    call transfers everything it can. `poll_write` never returns Ok(0) for a non-empty buffer;
+//!    a `poll_read` into an empty buffer returns Ready(Ok) with nothing filled (as a socket does);
+//!    EOF (Ready, nothing filled) only when `closed` and every byte was delivered, otherwise
+//!    Pending. How the write side records the accepted bytes: see `proofs::Mock`.
+//! 6. Callers re-poll an operation that returned Pending with the SAME arguments; every operation
+//!    gets enough polls to complete under the mock's Pending budget (asserted).
+//! 7. P, Q, the numbers of operations and the buffer lengths are stated at each harness. They are
+//!    small: every harness was sized to finish in < 10 min (CaDiCaL).
 //!
-//! All loops of the harness code have concrete trip counts or are unrolled by macro, so
-//! `#[kani::unwind]` only has to cover the loops of the real code (`poll_flush_frame`: <= Q + 1
-//! iterations, `poll_read_frame`: <= Q + 2 iterations) and of the cipher model (<= 4 payload
-//! bytes). Unwinding assertions are on: a too small bound is reported as inconclusive.
+//! All loops of the harness code and of the shims are unrolled by macro, so `#[kani::unwind]` only
+//! has to cover the loops of the real code (`poll_flush_frame`: <= Q + 1 iterations,
+//! `poll_read_frame`: <= Q + 2 iterations). Unwinding assertions are on: a too small bound is
+//! reported as inconclusive by the runner. No error value (`io::Error`) is ever dropped by the
+//! harnesses (`ManuallyDrop`): its drop glue drags every `dyn Error` implementor into the model.
 #![allow(dead_code, unused_imports, unused_macros)]
 
 /// `crate::metrics::MeteredStream`: only names the default type parameter of `Stream<S>`.
@@ -83,6 +96,49 @@ mod noise {
     /// The real noise/stream.rs with MAX_TRANSPORT_MSG_LEN scaled (see build.rs).
     pub(crate) mod stream {
         include!(concat!(env!("OUT_DIR"), "/stream_scaled.rs"));
+
+        // ---- VERIFICATION ONLY: the items below are NOT part of the real file. `Stream`'s fields
+        // are private, so they have to live in this module. See item 3 of the crate documentation.
+
+        /// `id == Keccak256([0x11; 32])` (the shim handshake hash) without a 32-iteration memcmp.
+        #[cfg(kani)]
+        pub(crate) fn verif_is_model_id(id: &Keccak256) -> bool {
+            let lo: [u8; 16] = id.0[..16].try_into().unwrap();
+            let hi: [u8; 16] = id.0[16..].try_into().unwrap();
+            u128::from_ne_bytes(lo) == u128::from_ne_bytes([0x11; 16])
+                && u128::from_ne_bytes(hi) == u128::from_ne_bytes([0x11; 16])
+        }
+
+        #[cfg(kani)]
+        impl<S> Stream<S> {
+            /// The struct literal of the `return Ok(Self { .. })` of the real `Stream::handshake`
+            /// (`handshake_returns_fresh_stream` proves that the real handshakes return a value
+            /// that `verif_is_fresh` accepts).
+            pub(crate) fn verif_fresh(inner: S) -> Self {
+                Self {
+                    id: Keccak256([0x11; 32]),
+                    inner,
+                    noise: snow::TransportState::new_session(),
+                    read_buf: Box::default(),
+                    write_buf: Box::default(),
+                }
+            }
+
+            /// Every field except `inner` has the value `verif_fresh` gives it: session id, cipher
+            /// state, and the four buffers empty with their full capacity (the bytes outside
+            /// begin..end -- zeros from `Buffer::new` in both cases -- are not compared).
+            pub(crate) fn verif_is_fresh(&self) -> bool {
+                fn empty(b: &bytes::Buffer, cap: usize) -> bool {
+                    b.len() == 0 && b.capacity() == cap && b.as_slice().is_empty()
+                }
+                verif_is_model_id(&self.id)
+                    && self.noise == snow::TransportState::new_session()
+                    && empty(&self.read_buf.payload, MAX_PAYLOAD_LEN)
+                    && empty(&self.read_buf.frame, MAX_FRAME_LEN)
+                    && empty(&self.write_buf.payload, MAX_PAYLOAD_LEN)
+                    && empty(&self.write_buf.frame, MAX_FRAME_LEN)
+            }
+        }
     }
 }
 
@@ -112,16 +168,19 @@ mod proofs {
     /// MAX_FRAME_LEN of the scaled file.
     const FRAME: usize = crate::scaled::SCALED_MAX_TRANSPORT_MSG_LEN + 2;
     // the unrolling macros below are written for these values (compile error otherwise)
-    const _: [(); 0] = [(); (PAYLOAD != 4 || FRAME != 22) as usize];
+    const _: [(); 0] = [(); (PAYLOAD != 4 || FRAME != 22 || RB != 5 || L != 6) as usize];
 
-    /// Capacity of the mock wire: two maximal frames.
+    /// Capacity of the reader's wire: two maximal frames.
     const W: usize = 2 * FRAME;
     /// Maximal length of a buffer passed to `Stream::poll_write`.
     const L: usize = 6;
     /// Maximal capacity of a `ReadBuf` passed to `Stream::poll_read`.
     const RB: usize = 5;
-    /// Maximal number of plaintext bytes a harness tracks (2 frames).
+    /// Maximal number of plaintext bytes that reach the wire in a harness (2 frames).
     const ACC: usize = 2 * PAYLOAD;
+    /// Maximal number of plaintext bytes a writer can have accepted after 3 `poll_write`s
+    /// (two frames + a full payload buffer).
+    const ACC_W: usize = 3 * PAYLOAD;
 
     /// Straight-line `for v in [..]` (no loop for CBMC to unwind).
     macro_rules! unroll {
@@ -135,15 +194,39 @@ mod proofs {
 
     /// Nondeterministic transport (see the crate documentation, item 4). Counters are `u8` (all
     /// values are < 256; asserted) -- 8-bit index arithmetic is much cheaper for the solver.
+    ///
+    /// WRITE SIDE: the accepted byte stream is recorded frame by frame. When `poll_write` is called
+    /// and every byte of the previously offered frame has been accepted, the offered buffer is a
+    /// NEW FRAME: all its bytes are copied to `frames[nframes]` (`flen` = its length) and k of them
+    /// are accepted (`off` = k). Otherwise the call CONTINUES the current frame: the mock asserts
+    /// that the stream offers at most the unsent rest, and that the bytes it accepts now are
+    /// exactly the recorded bytes `frames[cur][off..off + k]` -- checked for one ARBITRARY position
+    /// j < k (the solver has to consider every j, so this is the check for all positions at the
+    /// price of one). Together: the bytes accepted by the transport, in order, are exactly
+    /// frames[0][..flen[0]] ++ frames[1][..flen[1]] (cut at `off` in the last frame) -- any byte
+    /// sent twice, skipped or altered after a partial accept violates a mock assertion.
+    /// (A full byte-by-byte copy to a linear wire at a symbolic offset was measured to be >10x more
+    /// expensive and did not finish.)
     struct Mock {
-        /// the wire: bytes written so far (writer) / pre-loaded bytes (reader)
+        // ---- write side ----
+        frames: [[u8; FRAME]; 2],
+        flen: [u8; 2],
+        /// number of frames offered so far
+        nframes: u8,
+        /// accepted bytes of frame `nframes - 1`
+        off: u8,
+        /// total number of bytes accepted
+        written: u8,
+        // ---- read side ----
+        /// the wire the reader is fed from
         data: [u8; W],
         /// number of valid bytes in `data`
-        written: u8,
+        dlen: u8,
         /// number of bytes already delivered by `poll_read`
         read: u8,
-        /// reader: EOF once everything is delivered
+        /// EOF once everything is delivered
         closed: bool,
+        // ---- budgets ----
         /// remaining budget of Pending answers (P)
         pend_left: u8,
         /// remaining budget of partial transfers (Q)
@@ -163,10 +246,15 @@ mod proofs {
     }
 
     impl Mock {
-        fn new(data: [u8; W], written: u8, closed: bool, p: u8, q: u8) -> Self {
+        fn new(data: [u8; W], dlen: u8, closed: bool, p: u8, q: u8) -> Self {
             Mock {
+                frames: [[0; FRAME]; 2],
+                flen: [0; 2],
+                nframes: 0,
+                off: 0,
+                written: 0,
                 data,
-                written,
+                dlen,
                 read: 0,
                 closed,
                 pend_left: p,
@@ -190,6 +278,33 @@ mod proofs {
                 return true;
             }
             false
+        }
+        /// Length of the frame being sent (0 if none was offered yet).
+        fn cur_len(&self) -> u8 {
+            if self.nframes == 0 {
+                0
+            } else if self.nframes == 1 {
+                self.flen[0]
+            } else {
+                self.flen[1]
+            }
+        }
+        /// Every offered frame has been accepted completely.
+        fn all_frames_complete(&self) -> bool {
+            self.off == self.cur_len()
+        }
+        /// The accepted byte stream as a linear wire (only meaningful if `all_frames_complete`).
+        fn wire(&self) -> ([u8; W], u8) {
+            let mut w = [0u8; W];
+            let l0 = self.flen[0];
+            let l1 = self.flen[1];
+            w[..FRAME].copy_from_slice(&self.frames[0]);
+            unroll22!(|i| {
+                if i < l1 {
+                    w[(l0 + i) as usize] = self.frames[1][i as usize];
+                }
+            });
+            (w, l0 + l1)
         }
     }
 
@@ -222,19 +337,59 @@ mod proofs {
                 }
                 k = kk;
             }
-            m.after_partial_write = k < len;
-            // The harnesses never produce more than two frames.
-            assert!(
-                m.written as usize + k as usize <= W,
-                "mock: more bytes on the wire than two maximal frames"
-            );
-            let base = m.written;
-            unroll22!(|i| {
-                if i < k {
-                    m.data[(base + i) as usize] = buf[i as usize];
+            let cur_len = m.cur_len();
+            assert!(m.off <= cur_len);
+            if m.off == cur_len {
+                // ---- a new frame: record all of it ----
+                assert!(m.nframes < 2, "mock: the stream sends a third frame");
+                // a frame is a length field + at least the 16-byte authentication tag
+                assert!(len >= 18, "mock: a new frame shorter than length field + tag is offered");
+                // three (overlapping) 8-byte reads instead of 22 single-byte reads at a symbolic
+                // address: bytes 0..8, 8..16, len-8..len
+                let p = buf.as_ptr();
+                let w0 = unsafe { (p as *const [u8; 8]).read_unaligned() };
+                let w1 = unsafe { (p.add(8) as *const [u8; 8]).read_unaligned() };
+                let t = unsafe { (p.add(len as usize - 8) as *const [u8; 8]).read_unaligned() };
+                let mut snap = [0u8; FRAME];
+                snap[..8].copy_from_slice(&w0);
+                snap[8..16].copy_from_slice(&w1);
+                unroll!([16, 17, 18, 19, 20, 21], |i| {
+                    if i < len {
+                        snap[i as usize] = t[(i + 8 - len) as usize];
+                    }
+                });
+                if m.nframes == 0 {
+                    m.frames[0] = snap;
+                    m.flen[0] = len;
+                } else {
+                    m.frames[1] = snap;
+                    m.flen[1] = len;
                 }
-            });
-            m.written = base + k;
+                m.nframes += 1;
+                m.off = k;
+            } else {
+                // ---- continuation of the frame offered before ----
+                let rem = cur_len - m.off;
+                assert!(
+                    len <= rem,
+                    "mock: after a partial accept the stream offers more than the unsent rest of the frame (part of the frame is sent again)"
+                );
+                let j: u8 = kani::any();
+                kani::assume(j < k);
+                let at = (m.off + j) as usize;
+                let expect = if m.nframes == 1 {
+                    m.frames[0][at]
+                } else {
+                    m.frames[1][at]
+                };
+                assert!(
+                    buf[j as usize] == expect,
+                    "mock: bytes sent after a partial accept are not the bytes that follow the accepted ones"
+                );
+                m.off += k;
+            }
+            m.written += k;
+            m.after_partial_write = k < len;
             Poll::Ready(Ok(k as usize))
         }
 
@@ -271,8 +426,8 @@ mod proofs {
             // the stream reads into its frame buffer: never more than MAX_FRAME_LEN at once
             assert!(buf.remaining() <= FRAME, "mock: poll_read of more than MAX_FRAME_LEN bytes");
             let room = buf.remaining() as u8;
-            assert!(m.read <= m.written && m.written as usize <= W);
-            let avail = m.written - m.read;
+            assert!(m.read <= m.dlen && m.dlen as usize <= W);
+            let avail = m.dlen - m.read;
             if avail == 0 {
                 return if m.closed {
                     Poll::Ready(Ok(()))
@@ -313,27 +468,15 @@ mod proofs {
         }
     }
 
-    /// `Stream`'s fields are private: the value is built by the real `Stream::server_handshake`,
-    /// polled once (the shim handshake state is finished, so the future completes without I/O).
+    /// The state `Stream::handshake` returns (see `verif_fresh` next to the included file and the
+    /// harness `handshake_returns_fresh_stream`).
     fn new_stream(m: Mock) -> Stream<Mock> {
-        let ctx = ctx::root();
-        let mut cx = Context::from_waker(Waker::noop());
-        // Neither the completed future nor the result wrapper is dropped (their drop glue --
-        // anyhow::Error with its backtrace, every suspended state of the handshake -- is dead
-        // weight for the solver); the future is never moved after being pinned.
-        let mut fut = ManuallyDrop::new(Stream::server_handshake(&ctx, m));
-        let pinned = unsafe { Pin::new_unchecked(&mut *fut) };
-        let res = ManuallyDrop::new(pinned.poll(&mut cx));
-        match &*res {
-            Poll::Ready(Ok(s)) => unsafe { std::ptr::read(s) },
-            Poll::Ready(Err(_)) => panic!("harness: handshake failed"),
-            Poll::Pending => panic!("harness: handshake pending"),
-        }
+        Stream::verif_fresh(m)
     }
 
     /// Result of one poll without the `io::Error` payload. The error value is deliberately never
     /// dropped: the drop glue of `io::Error`'s `Box<dyn Error>` drags every `dyn Error`
-    /// implementor (anyhow, backtrace symbolisation) into the model.
+    /// implementor into the model.
     #[derive(Clone, Copy, PartialEq, Eq)]
     enum Res {
         Pending,
@@ -365,6 +508,49 @@ mod proofs {
         n as usize
     }
 
+    /// The real `Stream::server_handshake` / `client_handshake` (over the shim handshake state,
+    /// which is finished from the start) complete at their first poll with Ok(stream), do no I/O
+    /// on the transport, and the stream is in the state all other harnesses start from
+    /// (`Stream::verif_fresh`).
+    #[kani::proof]
+    #[kani::unwind(3)]
+    #[kani::stub(std::backtrace::Backtrace::capture, std::backtrace::Backtrace::disabled)]
+    fn handshake_returns_fresh_stream() {
+        let ctx = ctx::root();
+        let mut cx = Context::from_waker(Waker::noop());
+        // Neither the completed futures nor the result wrappers are dropped (their drop glue --
+        // anyhow::Error with its backtrace, every suspended state of the handshake -- is dead
+        // weight for the solver); the futures are never moved after being pinned.
+        let mut fut = ManuallyDrop::new(Stream::server_handshake(&ctx, Mock::writer(1, 1)));
+        let pinned = unsafe { Pin::new_unchecked(&mut *fut) };
+        let res = ManuallyDrop::new(pinned.poll(&mut cx));
+        match &*res {
+            Poll::Ready(Ok(s)) => {
+                assert!(s.verif_is_fresh(), "server_handshake: not the fresh state");
+                assert!(crate::noise::stream::verif_is_model_id(&s.id()));
+                let m: &Mock = s;
+                assert!(m.written == 0 && m.read == 0 && m.pend_left == 1 && m.flushes == 0);
+                kani::cover!(true, "server handshake completes at the first poll");
+            }
+            _ => panic!("server_handshake did not complete"),
+        }
+        let mut fut = ManuallyDrop::new(Stream::client_handshake(&ctx, Mock::writer(1, 1)));
+        let pinned = unsafe { Pin::new_unchecked(&mut *fut) };
+        let res = ManuallyDrop::new(pinned.poll(&mut cx));
+        match &*res {
+            Poll::Ready(Ok(c)) => {
+                assert!(c.verif_is_fresh(), "client_handshake: not the fresh state");
+                let m: &Mock = c;
+                assert!(m.written == 0 && m.read == 0 && m.pend_left == 1 && m.flushes == 0);
+                kani::cover!(true, "client handshake completes at the first poll");
+            }
+            _ => panic!("client_handshake did not complete"),
+        }
+        let f = Stream::verif_fresh(Mock::writer(1, 1));
+        assert!(f.verif_is_fresh());
+        std::mem::forget(f);
+    }
+
     #[derive(Clone, Copy, PartialEq, Eq)]
     enum Kind {
         Write,
@@ -378,7 +564,7 @@ mod proofs {
     /// returned Pending is polled again with the SAME arguments at the next step.
     struct Writer {
         /// plaintext accepted so far (`poll_write` returning n accepts the first n bytes)
-        acc: [u8; ACC],
+        acc: [u8; ACC_W],
         acc_n: u8,
         /// `acc_n` at the moment of the last successful poll_flush / poll_shutdown
         flushed: u8,
@@ -392,7 +578,7 @@ mod proofs {
     impl Writer {
         fn new() -> Self {
             Writer {
-                acc: [0; ACC],
+                acc: [0; ACC_W],
                 acc_n: 0,
                 flushed: 0,
                 ops_done: 0,
@@ -403,19 +589,18 @@ mod proofs {
             }
         }
 
-        /// ONE poll. Starts operation number `ops_done` (of kind `kind`) if none is in progress.
+        /// ONE poll. Starts operation number `ops_done` (of kind `kind`) if none is in progress;
+        /// does nothing once `max_ops` operations are complete.
         /// Asserts: no error; `poll_write` of a non-empty buffer returns 0 < n <= len.
         ///
-        /// `allow` = (poll_write, poll_flush, poll_shutdown) may occur at this step: compile-time
-        /// constants at every call site, so that the model checker does not have to explore the
-        /// call sites of operations the harness never performs there (asserted to be consistent
-        /// with `kind`).
-        fn step(
+        /// `AW`, `AF`, `AS`: poll_write / poll_flush / poll_shutdown may occur at this step.
+        /// Compile-time constants, so that the call sites of operations a harness never performs at
+        /// a step do not exist in the model at all (consistency with `kind` is asserted).
+        fn step<const AW: bool, const AF: bool, const AS: bool>(
             &mut self,
             a: &mut Stream<Mock>,
             max_ops: u8,
             kind: Kind,
-            allow: (bool, bool, bool),
         ) {
             if self.ops_done >= max_ops {
                 return;
@@ -438,52 +623,47 @@ mod proofs {
                 self.in_progress = true;
             }
             let mut cx = Context::from_waker(Waker::noop());
-            let is_write = allow.0 && self.kind == Kind::Write;
-            let is_flush = allow.1 && self.kind == Kind::Flush;
-            let is_shutdown = allow.2 && self.kind == Kind::Shutdown;
+            let is_write = AW && self.kind == Kind::Write;
+            let is_flush = AF && self.kind == Kind::Flush;
+            let is_shutdown = AS && self.kind == Kind::Shutdown;
             assert!(
                 is_write || is_flush || is_shutdown,
                 "harness: operation kind not allowed at this step"
             );
-            let res = if is_write {
-                {
-                    let r = res_usize(
-                        Pin::new(&mut *a).poll_write(&mut cx, &self.content[..self.len]),
+            let res = if AW && is_write {
+                let r =
+                    res_usize(Pin::new(&mut *a).poll_write(&mut cx, &self.content[..self.len]));
+                if let Res::Ok(n) = r {
+                    assert!(n > 0, "poll_write returned Ok(0) for a non-empty buffer");
+                    assert!(n <= self.len, "poll_write accepted more than it was given");
+                    assert!(
+                        self.acc_n as usize + n <= ACC_W,
+                        "harness: more plaintext than three payload buffers"
                     );
-                    if let Res::Ok(n) = r {
-                        assert!(n > 0, "poll_write returned Ok(0) for a non-empty buffer");
-                        assert!(n <= self.len, "poll_write accepted more than it was given");
-                        assert!(
-                            self.acc_n as usize + n <= ACC,
-                            "harness: more plaintext than two payload buffers"
-                        );
-                        let n = n as u8;
-                        let base = self.acc_n;
-                        unroll6!(|i| {
-                            if i < n {
-                                self.acc[(base + i) as usize] = self.content[i as usize];
-                            }
-                        });
-                        self.acc_n = base + n;
-                    }
-                    r
+                    let n = n as u8;
+                    let base = self.acc_n;
+                    unroll6!(|i| {
+                        if i < n {
+                            self.acc[(base + i) as usize] = self.content[i as usize];
+                        }
+                    });
+                    self.acc_n = base + n;
                 }
-            } else if is_shutdown {
-                {
-                    let r = res_unit(Pin::new(&mut *a).poll_shutdown(&mut cx));
-                    if let Res::Ok(_) = r {
-                        self.flushed = self.acc_n;
-                    }
-                    r
+                r
+            } else if AS && is_shutdown {
+                let r = res_unit(Pin::new(&mut *a).poll_shutdown(&mut cx));
+                if let Res::Ok(_) = r {
+                    self.flushed = self.acc_n;
                 }
+                r
+            } else if AF {
+                let r = res_unit(Pin::new(&mut *a).poll_flush(&mut cx));
+                if let Res::Ok(_) = r {
+                    self.flushed = self.acc_n;
+                }
+                r
             } else {
-                {
-                    let r = res_unit(Pin::new(&mut *a).poll_flush(&mut cx));
-                    if let Res::Ok(_) = r {
-                        self.flushed = self.acc_n;
-                    }
-                    r
-                }
+                unreachable!("harness: operation kind not allowed at this step")
             };
             match res {
                 Res::Ok(_) => {
@@ -509,6 +689,8 @@ mod proofs {
         reads_done: u8,
         in_progress: bool,
         cap: usize,
+        /// if set: every read uses this capacity (chosen once) instead of a fresh symbolic one
+        same_cap: bool,
     }
 
     impl Reader {
@@ -522,10 +704,28 @@ mod proofs {
                 reads_done: 0,
                 in_progress: false,
                 cap: 1,
+                same_cap: false,
             }
         }
 
-        /// ONE poll of `poll_read` with a ReadBuf of symbolic capacity 1..=RB.
+        /// All reads use one symbolic capacity 1..=RB (chosen here) instead of one per read.
+        fn with_same_cap() -> Self {
+            let mut r = Self::new();
+            r.cap = any_len(RB);
+            r.same_cap = true;
+            r
+        }
+
+        /// All reads use the capacity `cap`.
+        fn with_cap(cap: usize) -> Self {
+            let mut r = Self::new();
+            r.cap = cap;
+            r.same_cap = true;
+            r
+        }
+
+        /// ONE poll of `poll_read` with a ReadBuf of capacity `cap` (symbolic 1..=RB, chosen per
+        /// read, unless the constructor fixed it).
         /// Asserts the AsyncRead contract (Pending / Err leave the ReadBuf untouched; at most
         /// `cap` bytes) and that no data follows an EOF.
         fn step(&mut self, b: &mut Stream<Mock>, max_reads: u8) {
@@ -533,7 +733,9 @@ mod proofs {
                 return;
             }
             if !self.in_progress {
-                self.cap = any_len(RB);
+                if !self.same_cap {
+                    self.cap = any_len(RB);
+                }
                 self.in_progress = true;
             }
             let mut cx = Context::from_waker(Waker::noop());
@@ -556,10 +758,10 @@ mod proofs {
                         );
                         let f = f as u8;
                         let base = self.n;
-                        let filled = rb.filled();
-                        unroll6!(|i| {
+                        // RB = 5 positions
+                        unroll!([0, 1, 2, 3, 4], |i| {
                             if i < f {
-                                self.got[(base + i) as usize] = filled[i as usize];
+                                self.got[(base + i) as usize] = storage[i as usize];
                             }
                         });
                         self.n = base + f;
@@ -581,7 +783,8 @@ mod proofs {
 
         /// What was received is a prefix of `acc[..acc_n]`: same bytes, same order, nothing
         /// duplicated, nothing altered.
-        fn assert_prefix_of(&self, acc: &[u8; ACC], acc_n: u8) {
+        fn assert_prefix_of(&self, acc: &[u8], acc_n: u8) {
+            assert!(acc.len() >= ACC);
             assert!(self.n <= acc_n, "reader received more bytes than the writer accepted");
             unroll8!(|i| {
                 if i < self.n {
@@ -594,51 +797,59 @@ mod proofs {
         }
     }
 
-    /// (a) END TO END. Bounds: P = 1 Pending and Q = 1 partial transfer per mock (writer's and
-    /// reader's mock each). Writer stream A performs NW = 3 operations, each nondeterministically
-    /// `poll_write` (buffer of symbolic length 1..=L = 6, symbolic content) or `poll_flush`
-    /// (NW + P = 4 polls). Then reader stream B (peer cipher state) over a mock pre-loaded with
-    /// exactly the bytes A's mock received (W = 44), closed, performs up to NR = 6 `poll_read`s with
-    /// ReadBufs of symbolic capacity 1..=RB = 5 (NR + P = 7 polls).
+    /// (a) END TO END. Bounds: writer's mock P = 1 Pending, Q = 0 partial accepts (partial accepts
+    /// on the write side are covered by `flush_delivers_exactly_once_on_wire` and
+    /// `shutdown_flushes`); reader's mock P = 0, Q = 0 (it always delivers min(room, available);
+    /// the reader still sees frames split over transport reads because two frames do not fit its
+    /// 22-byte frame buffer; Pending and short reads on the read side are covered by
+    /// `reader_false_eof`). Writer stream A performs NW = 3 operations: a `poll_write`, then twice
+    /// nondeterministically `poll_write` or `poll_flush` (write buffers of symbolic length
+    /// 1..=L = 6, symbolic content; NW + P = 4 polls). Then reader stream B (peer cipher state) over
+    /// a mock pre-loaded with exactly the bytes A's mock accepted (W = 44), closed, performs NR = 3
+    /// `poll_read`s with ReadBufs of capacity RB = 5 (small ReadBufs: `reader_small_reads`).
     /// Asserts: no operation fails or is still Pending when the budget is used up; poll_write
-    /// never returns Ok(0) / more than len; what B receives is a prefix of what A accepted (order,
-    /// no duplication, no corruption); B reports EOF only after at least the bytes accepted before
-    /// A's last successful flush; no data after EOF.
-    /// unwind 4: poll_flush_frame <= Q + 1 = 2 iterations, poll_read_frame <= Q + 2 = 3 iterations.
+    /// never returns Ok(0) / more than len; the mock's wire-consistency assertions (see `Mock`);
+    /// what B receives is a prefix of what A accepted (order, no duplication, no corruption); B
+    /// reports EOF only after at least the bytes accepted before A's last successful flush; no
+    /// data after EOF.
+    /// unwind 3: poll_flush_frame 1 iteration, poll_read_frame <= 2 iterations.
     #[kani::proof]
-    #[kani::unwind(4)]
-    #[kani::stub(std::backtrace::Backtrace::capture, std::backtrace::Backtrace::disabled)]
+    #[kani::unwind(3)]
     fn roundtrip_write_flush_read() {
-        const P: u8 = 1;
-        const Q: u8 = 1;
         const NW: u8 = 3;
-        const NR: u8 = 6;
-        let mut a = new_stream(Mock::writer(P, Q));
+        const NR: u8 = 3;
+        let mut a = new_stream(Mock::writer(1, 0));
         let mut w = Writer::new();
-        // NW + P polls
-        unroll!([0, 1, 2, 3], |_s| {
-            w.step(&mut a, NW, Kind::Any, (true, true, false));
+        // NW + P polls; the first operation is a poll_write (a poll_flush of a fresh stream does
+        // nothing), it cannot be Pending: nothing is sent yet
+        w.step::<true, false, false>(&mut a, NW, Kind::Write);
+        assert!(w.ops_done == 1);
+        unroll!([1, 2, 3], |_s| {
+            w.step::<true, true, false>(&mut a, NW, Kind::Any);
         });
         assert!(
             w.ops_done == NW && !w.in_progress,
             "write-half operation still Pending after the transport's Pending budget"
         );
-        let (wire, written, pending_mid_frame, partial_writes) = {
+        let (wire, written, write_pendings) = {
             let m: &Mock = &a;
-            (m.data, m.written, m.pending_mid_frame, m.partial_writes)
+            assert!(
+                m.all_frames_complete(),
+                "operation completed but the transport holds only part of a frame"
+            );
+            let (wire, n) = m.wire();
+            assert!(n == m.written);
+            (wire, n, 1 - m.pend_left)
         };
 
-        let mut b = new_stream(Mock::new(wire, written, true, P, Q));
-        let mut r = Reader::new();
-        // NR + P polls
-        unroll!([0, 1, 2, 3, 4, 5, 6], |_s| {
+        let mut b = new_stream(Mock::new(wire, written, true, 0, 0));
+        let mut r = Reader::with_cap(RB);
+        // NR polls (the reader's transport never answers Pending)
+        unroll!([0, 1, 2], |_s| {
             r.step(&mut b, NR);
         });
         assert!(!r.err, "poll_read returned an error on an untampered wire");
-        assert!(
-            r.reads_done == NR && !r.in_progress,
-            "poll_read still Pending after the transport's Pending budget"
-        );
+        assert!(r.reads_done == NR && !r.in_progress, "poll_read Pending on a closed transport");
         r.assert_prefix_of(&w.acc, w.acc_n);
         if r.eof {
             assert!(
@@ -647,45 +858,47 @@ mod proofs {
             );
         }
 
-        let (first_delivery, short_reads) = {
+        let first_delivery = {
             let m: &Mock = &b;
-            (m.first_delivery, m.short_reads)
+            m.first_delivery
         };
-        let frame1 = 2 + u16::from_le_bytes([wire[0], wire[1]]) as usize;
-        kani::cover!(pending_mid_frame, "transport answered Pending in the middle of a frame");
-        kani::cover!(partial_writes > 0, "transport accepted part of a frame");
-        kani::cover!(written as usize > FRAME, "two frames on the wire");
         kani::cover!(
-            written > 0 && first_delivery > 0 && (first_delivery as usize) < frame1 && r.n > 0,
-            "reader got its first frame split over several transport reads"
+            write_pendings > 0 && written as usize > FRAME,
+            "transport answered Pending during the write phase, two frames on the wire"
+        );
+        kani::cover!(
+            written as usize > FRAME && (first_delivery as usize) == FRAME && r.n > PAYLOAD as u8,
+            "second frame reaches the reader split over two transport reads"
         );
         kani::cover!(
             r.eof && r.n as usize == ACC && w.flushed as usize == ACC,
             "two full frames delivered, then EOF"
         );
         kani::cover!(r.eof && w.flushed < w.acc_n, "EOF with unflushed data left in the writer");
-        kani::cover!(short_reads > 0 && r.n == w.acc_n && w.acc_n > 0);
         std::mem::forget(a);
         std::mem::forget(b);
     }
 
-    /// Decodes the wire by hand (u16 LE length prefix, frame, peer cipher state): at most two
-    /// frames. Asserts it is a sequence of complete, authentic, non-empty frames with nothing left
-    /// over; returns (plaintext, its length, number of frames).
-    fn decode_wire(m: &Mock) -> ([u8; ACC], u8, u8) {
-        let written = m.written as usize;
+    /// Decodes the frames the mock recorded by hand (u16 LE length prefix, frame, peer cipher
+    /// state). Asserts: every recorded frame was accepted completely, its length field covers
+    /// exactly the rest of the frame, it authenticates as the next message and is not empty.
+    /// Returns (plaintext, its length, number of frames).
+    fn decode_frames(m: &Mock) -> ([u8; ACC], u8, u8) {
+        assert!(
+            m.all_frames_complete(),
+            "operation completed but the transport holds only part of a frame"
+        );
         let mut peer = snow::TransportState::new_session();
         let mut dec = [0u8; ACC];
         let mut dec_n = 0u8;
-        let mut pos = 0usize;
-        let mut frames = 0u8;
-        unroll!([0, 1], |_f| {
-            if pos < written {
-                assert!(written - pos >= 2, "wire ends inside a length field");
-                let n = u16::from_le_bytes([m.data[pos], m.data[pos + 1]]) as usize;
-                assert!(pos + 2 + n <= written, "wire ends inside a frame");
+        unroll!([0, 1], |f| {
+            if f < m.nframes {
+                let fr = &m.frames[f as usize];
+                let fl = m.flen[f as usize] as usize;
+                let n = u16::from_le_bytes([fr[0], fr[1]]) as usize;
+                assert!(2 + n == fl, "length field does not match the frame sent");
                 let mut out = [0u8; PAYLOAD];
-                let r = peer.read_message(&m.data[pos + 2..pos + 2 + n], &mut out);
+                let r = peer.read_message(&fr[2..2 + n], &mut out);
                 assert!(r.is_ok(), "frame on the wire does not authenticate as the next message");
                 let p = r.unwrap_or(0) as u8;
                 assert!(p > 0, "empty frame on the wire");
@@ -696,36 +909,35 @@ mod proofs {
                     }
                 });
                 dec_n += p;
-                pos += 2 + n;
-                frames += 1;
             }
         });
-        assert!(pos == written, "bytes left on the wire after two frames");
-        (dec, dec_n, frames)
+        assert!(m.written == m.flen[0] + m.flen[1]);
+        (dec, dec_n, m.nframes)
     }
 
-    /// (b) WRITE SIDE. Bounds: P = 2, Q = 2. Operations: `poll_write`, then `poll_write` or
-    /// `poll_flush`, then `poll_flush` (buffers of symbolic length 1..=6, symbolic content); 3 + P
-    /// = 5 polls. After the final successful flush the wire, decoded by hand with the peer cipher
-    /// state, is a sequence of complete frames whose plaintexts concatenate to exactly the accepted
-    /// bytes, nothing left over: in particular no part of a frame is sent twice when the transport
-    /// accepts part of a frame and then answers Pending. The inner transport was flushed too.
+    /// (b) WRITE SIDE. Bounds: P = 2, Q = 2. Operations: `poll_write`, `poll_write`, `poll_flush`
+    /// (buffers of symbolic length 1..=6, symbolic content; one or two frames result); each
+    /// operation is polled up to P + 1 = 3 times. After the final successful flush the bytes the
+    /// transport accepted (see `Mock` for how they are recorded and checked), decoded by hand with
+    /// the peer cipher state, are a sequence of complete frames whose plaintexts concatenate to
+    /// exactly the accepted bytes, nothing left over: in particular no part of a frame is sent
+    /// twice when the transport accepts part of a frame and then answers Pending. The inner
+    /// transport was flushed too.
     /// unwind 4: poll_flush_frame <= Q + 1 = 3 iterations.
     #[kani::proof]
     #[kani::unwind(4)]
-    #[kani::stub(std::backtrace::Backtrace::capture, std::backtrace::Backtrace::disabled)]
     fn flush_delivers_exactly_once_on_wire() {
-        const P: u8 = 2;
         const Q: u8 = 2;
-        let mut a = new_stream(Mock::writer(P, Q));
+        let mut a = new_stream(Mock::writer(2, Q));
         let mut w = Writer::new();
-        unroll!([0, 1, 2, 3, 4], |_s| {
-            let kind = match w.ops_done {
-                0 => Kind::Write,
-                1 => Kind::Any,
-                _ => Kind::Flush,
-            };
-            w.step(&mut a, 3, kind, (true, true, false));
+        unroll!([0, 1, 2], |_s| {
+            w.step::<true, false, false>(&mut a, 1, Kind::Write);
+        });
+        unroll!([0, 1, 2], |_s| {
+            w.step::<true, false, false>(&mut a, 2, Kind::Write);
+        });
+        unroll!([0, 1, 2], |_s| {
+            w.step::<false, true, false>(&mut a, 3, Kind::Flush);
         });
         assert!(
             w.ops_done == 3 && !w.in_progress,
@@ -734,7 +946,7 @@ mod proofs {
         assert!(w.flushed == w.acc_n);
         let m: &Mock = &a;
         assert!(m.flushes >= 1, "poll_flush succeeded without flushing the inner transport");
-        let (dec, dec_n, frames) = decode_wire(m);
+        let (dec, dec_n, frames) = decode_frames(m);
         assert!(dec_n == w.acc_n, "wire carries a different number of plaintext bytes than accepted");
         unroll8!(|i| {
             if i < dec_n {
@@ -749,28 +961,25 @@ mod proofs {
         kani::cover!(m.partial_writes == Q, "both partial accepts used");
         kani::cover!(frames == 2, "two frames on the wire");
         kani::cover!(frames == 2 && m.pending_mid_frame && w.acc_n as usize == ACC);
-        kani::cover!(frames == 1 && w.acc_n == 1, "one-byte frame");
+        kani::cover!(frames == 1 && w.acc_n == 2, "two one-byte writes in one frame");
         std::mem::forget(a);
     }
 
-    /// (b') `poll_shutdown` implies a flush. Bounds: P = 2, Q = 2; `poll_write` (symbolic length
-    /// 1..=6) then `poll_shutdown`; 2 + P = 4 polls. The wire holds exactly one frame carrying the
-    /// accepted bytes and the inner transport was shut down exactly once.
-    /// unwind 4 as in (b).
+    /// (b') `poll_shutdown` implies a flush. Bounds: P = 1, Q = 1; `poll_write` (symbolic length
+    /// 1..=6, symbolic content) then `poll_shutdown`, each polled up to P + 1 = 2 times. The
+    /// transport accepted exactly one frame carrying the accepted bytes (no byte twice: see
+    /// `Mock`) and was shut down exactly once.
+    /// unwind 3: poll_flush_frame <= Q + 1 = 2 iterations.
     #[kani::proof]
-    #[kani::unwind(4)]
-    #[kani::stub(std::backtrace::Backtrace::capture, std::backtrace::Backtrace::disabled)]
+    #[kani::unwind(3)]
     fn shutdown_flushes() {
-        const P: u8 = 2;
-        const Q: u8 = 2;
-        let mut a = new_stream(Mock::writer(P, Q));
+        let mut a = new_stream(Mock::writer(1, 1));
         let mut w = Writer::new();
-        unroll!([0, 1, 2, 3], |_s| {
-            let kind = match w.ops_done {
-                0 => Kind::Write,
-                _ => Kind::Shutdown,
-            };
-            w.step(&mut a, 2, kind, (true, false, true));
+        unroll!([0, 1], |_s| {
+            w.step::<true, false, false>(&mut a, 1, Kind::Write);
+        });
+        unroll!([0, 1], |_s| {
+            w.step::<false, false, true>(&mut a, 2, Kind::Shutdown);
         });
         assert!(
             w.ops_done == 2 && !w.in_progress,
@@ -778,7 +987,7 @@ mod proofs {
         );
         let m: &Mock = &a;
         assert!(m.shutdowns == 1, "inner transport not shut down exactly once");
-        let (dec, dec_n, frames) = decode_wire(m);
+        let (dec, dec_n, frames) = decode_frames(m);
         assert!(frames == 1 && dec_n == w.acc_n);
         unroll4!(|i| {
             if i < dec_n {
@@ -806,22 +1015,9 @@ mod proofs {
         pos + 2 + n
     }
 
-    /// (c) READ SIDE. Bounds: P = 2, Q = 2. The wire holds TWO valid back-to-back frames built by
-    /// hand with the peer cipher state (payload lengths p1, p2 symbolic 1..=4, symbolic content).
-    /// `closed` is symbolic. Up to NR = 5 `poll_read`s with ReadBufs of symbolic capacity 1..=5
-    /// (NR + P = 7 polls).
-    /// Asserts: never an error; what is received is a prefix of p1 ++ p2; EOF is reported only
-    /// after all p1 + p2 bytes (and never if the transport is not closed); no data after EOF; a
-    /// read is still Pending at the end only when the transport is open and everything was
-    /// delivered.
-    /// unwind 5: poll_read_frame <= Q + 2 = 4 iterations.
-    #[kani::proof]
-    #[kani::unwind(5)]
-    #[kani::stub(std::backtrace::Backtrace::capture, std::backtrace::Backtrace::disabled)]
-    fn reader_false_eof() {
-        const P: u8 = 2;
-        const Q: u8 = 2;
-        const NR: u8 = 5;
+    /// Body of (c): two valid frames on the wire, P, Q = budgets of the reader's mock, NR reads
+    /// with ReadBufs of capacity RB = 5 (>= MAX_PAYLOAD_LEN: a whole payload per read).
+    fn reader_false_eof_body<const P: u8, const Q: u8, const NR: u8>() {
         let content: [u8; ACC] = kani::any();
         let p1 = any_len(PAYLOAD);
         let p2 = any_len(PAYLOAD);
@@ -834,9 +1030,12 @@ mod proofs {
         let total = (p1 + p2) as u8;
 
         let mut b = new_stream(Mock::new(wire, end2 as u8, closed, P, Q));
-        let mut r = Reader::new();
-        unroll!([0, 1, 2, 3, 4, 5, 6], |_s| {
-            r.step(&mut b, NR);
+        let mut r = Reader::with_cap(RB);
+        // NR + P polls (at most 7)
+        unroll!([0, 1, 2, 3, 4, 5, 6], |s| {
+            if s < NR + P {
+                r.step(&mut b, NR);
+            }
         });
         assert!(!r.err, "poll_read returned an error on an untampered wire");
         r.assert_prefix_of(&content, total);
@@ -855,20 +1054,78 @@ mod proofs {
 
         let m: &Mock = &b;
         let fd = m.first_delivery as usize;
-        kani::cover!(fd > 0 && fd < end1 && r.n as usize >= p1,
+        // (not reachable without short reads)
+        kani::cover!(Q == 0 || (fd > 0 && fd < end1 && r.n as usize >= p1),
             "first frame split over several transport reads");
         kani::cover!(fd > end1 && r.n == total,
             "first transport read carries the first frame and part of the second");
         kani::cover!(fd == FRAME && p1 < PAYLOAD && r.eof,
             "frame buffer filled completely by the first read, second frame incomplete");
         kani::cover!(r.eof && r.n as usize == ACC, "two full frames, then EOF");
-        kani::cover!(m.read_pendings > 0 && m.short_reads == Q && r.eof);
+        kani::cover!((P == 0 || m.read_pendings > 0) && m.short_reads == Q && r.eof);
         kani::cover!(!closed && r.in_progress);
         std::mem::forget(b);
     }
 
-    /// (d) TAMPERED WIRE. Bounds: P = 2, Q = 2; the wire is `len` <= 24 ARBITRARY bytes, closed; up
-    /// to 4 `poll_read`s with ReadBufs of symbolic capacity 1..=5 (4 + P = 6 polls).
+    /// (c) READ SIDE. Bounds: P = 1 Pending, Q = 1 short read. The wire holds TWO valid
+    /// back-to-back frames built by hand with the peer cipher state (payload lengths p1, p2
+    /// symbolic 1..=4, symbolic content). `closed` is symbolic. NR = 3 `poll_read`s (frame, frame,
+    /// EOF) with ReadBufs of capacity 5 (NR + P = 4 polls).
+    /// Asserts: never an error; what is received is a prefix of p1 ++ p2; EOF is reported only
+    /// after all p1 + p2 bytes (and never if the transport is not closed); no data after EOF; a
+    /// read is still Pending at the end only when the transport is open and everything was
+    /// delivered.
+    /// unwind 4: poll_read_frame <= Q + 2 = 3 iterations.
+    #[kani::proof]
+    #[kani::unwind(4)]
+    fn reader_false_eof() {
+        reader_false_eof_body::<1, 1, 3>();
+    }
+
+    /// (c, no back-pressure) Same as (c) with P = 0, Q = 0: the transport always delivers
+    /// min(room, available), so the first transport read fills the 22-byte frame buffer (first
+    /// frame + the beginning of the second). NR = 3 reads. unwind 3: poll_read_frame <= 2
+    /// iterations.
+    #[kani::proof]
+    #[kani::unwind(3)]
+    fn reader_two_frames_no_backpressure() {
+        reader_false_eof_body::<0, 0, 3>();
+    }
+
+    /// (c') Payload handed out in pieces. Bounds: P = 0, Q = 0; ONE valid frame (payload length
+    /// symbolic 1..=4, symbolic content) on a closed wire; NR = 5 `poll_read`s, each with a ReadBuf
+    /// of its own symbolic capacity 1..=5.
+    /// Asserts: never an error, never Pending; the bytes received are exactly the payload, in
+    /// order; EOF is reported (within the 5 reads) and only after the whole payload; no data after
+    /// EOF.
+    /// unwind 3: poll_read_frame <= 2 iterations.
+    #[kani::proof]
+    #[kani::unwind(3)]
+    fn reader_small_reads() {
+        const NR: u8 = 5;
+        let content: [u8; ACC] = kani::any();
+        let p1 = any_len(PAYLOAD);
+        let mut peer = snow::TransportState::new_session();
+        let mut wire = [0u8; W];
+        let end1 = put_frame(&mut peer, &mut wire, 0, &content[..p1]);
+        let mut b = new_stream(Mock::new(wire, end1 as u8, true, 0, 0));
+        let mut r = Reader::new();
+        unroll!([0, 1, 2, 3, 4], |_s| {
+            r.step(&mut b, NR);
+        });
+        assert!(!r.err, "poll_read returned an error on an untampered wire");
+        assert!(r.reads_done == NR && !r.in_progress, "poll_read Pending on a closed transport");
+        r.assert_prefix_of(&content, p1 as u8);
+        // every read delivers at least one byte while there is one: 5 reads always reach EOF
+        assert!(r.eof, "EOF not reported although the whole payload was delivered");
+        assert!(r.n_at_eof as usize == p1, "EOF reported before the payload was delivered");
+        kani::cover!(p1 == PAYLOAD && r.cap == 1, "4 bytes, last read with a 1-byte buffer");
+        kani::cover!(p1 == 1);
+        std::mem::forget(b);
+    }
+
+    /// (d) TAMPERED WIRE. Bounds: P = 1, Q = 1; the wire is `len` <= 24 ARBITRARY bytes, closed;
+    /// 2 `poll_read`s with ReadBufs of capacity 5 (2 + P = 3 polls).
     /// Asserts: no panic / out-of-bounds / arithmetic overflow anywhere in stream.rs and bytes.rs
     /// (Kani's automatic checks, debug assertions included); Err and Pending leave the ReadBuf
     /// untouched; and AUTHENTICITY in the ideal-cipher model: if any data is delivered, the wire
@@ -877,23 +1134,20 @@ mod proofs {
     /// frame). An Err result is fine. (Scaling artefact: a length field > 20 cannot be completed
     /// inside the 22-byte frame buffer and ends in EOF instead of an error; with the real
     /// constant every u16 length fits the buffer.)
-    /// unwind 5 as in (c).
+    /// unwind 4: poll_read_frame <= Q + 2 = 3 iterations.
     #[kani::proof]
-    #[kani::unwind(5)]
-    #[kani::stub(std::backtrace::Backtrace::capture, std::backtrace::Backtrace::disabled)]
+    #[kani::unwind(4)]
     fn reader_tampered_wire_never_panics() {
-        const P: u8 = 2;
-        const Q: u8 = 2;
         const WD: usize = 24;
         let bytes: [u8; WD] = kani::any();
         let len: u8 = kani::any();
         kani::assume(len as usize <= WD);
         let mut wire = [0u8; W];
         wire[..WD].copy_from_slice(&bytes);
-        let mut b = new_stream(Mock::new(wire, len, true, P, Q));
-        let mut r = Reader::new();
-        unroll!([0, 1, 2, 3, 4, 5], |_s| {
-            r.step(&mut b, 4);
+        let mut b = new_stream(Mock::new(wire, len, true, 1, 1));
+        let mut r = Reader::with_cap(RB);
+        unroll!([0, 1, 2], |_s| {
+            r.step(&mut b, 2);
         });
         if r.n > 0 {
             let len = len as usize;
